@@ -466,10 +466,13 @@ def normalise_cols(X, df, sw):
     return np.asfortranarray(X)
 
 
-def gen_case(rng, df_kinds=None, pen_kinds=None, degenerate=False, warm=None, budgets=None):
+def gen_case(rng, df_kinds=None, pen_kinds=None, degenerate=False, warm=None, budgets=None,
+             force_positive=False, **_ignored):
     dk = rng.choice(df_kinds or ["quadratic", "quadratic", "logistic", "huber", "wquadratic", "svc"])
     df = Dfit("huber", rng.choice([0.5, 1.35, 5.0])) if dk == "huber" else Dfit(dk)
     pen = gen_pen(rng, pen_kinds)
+    if force_positive and pen.kind in Pen.HAS_POS:
+        pen.positive = True
     if dk == "svc":
         pen = Pen("box", rng.choice([0.1, 1.0, 10.0]))
     n, p = rng.randrange(2, 13), rng.randrange(1, 11)
